@@ -53,6 +53,8 @@ def make_case(seed: int, tier: str, prop: str, opts=None) -> Dict[str, Any]:
         return {"scenario": sc, "schedules": [c["schedule"]]}
     elif fam == 19 and not force:
         sc = gen.gen_twopath(seed, tier)
+    elif fam == 12 and not force:
+        sc = gen.gen_diamond(seed, tier)
     else:
         if prop == "C03":
             # C03 attributes every input value to the production it came from: values must be unique
